@@ -184,10 +184,12 @@ type runState struct {
 	deadline time.Time
 	capped   bool
 	crashes  int
-	keys     map[string]map[int]string // per space: case index -> state key
-	known    *Known
-	unlisted int       // violating cases no known finding covers
-	stopAt   time.Time // once unlisted > 0: no new shard is started after this instant
+	// hangConfirmed: some hang of this run reproduced alone with a generous limit
+	hangConfirmed bool
+	keys          map[string]map[int]string // per space: case index -> state key
+	known         *Known
+	unlisted      int       // violating cases no known finding covers
+	stopAt        time.Time // once unlisted > 0: no new shard is started after this instant
 }
 
 // stopEarly: a run that has already found violations no known finding covers does not
@@ -268,13 +270,36 @@ func (rs *runState) runShard(sp *Space, lo, hi int) {
 		if rs.crashes > 2 {
 			need = 0 // later deaths of the same run are recorded without re-running them alone
 		}
+		confirmTO := caseTO
+		if hung {
+			// A hang is a wall-clock observation: on a loaded machine a worker can miss the
+			// per-case limit without the case being at fault (seen once: 14 "hangs" in a
+			// thorough run next to two other heavy jobs, none reproducible). Until one hang
+			// of this run has been confirmed alone - twice, with six times the limit - every
+			// hang has to be confirmed that way; afterwards the run has failed anyway and
+			// further hangs are recorded as they come.
+			if !rs.hangConfirmed {
+				need = 2
+				confirmTO = 6 * caseTO
+				if confirmTO < 60*time.Second {
+					confirmTO = 60 * time.Second
+				}
+			} else {
+				need = 0
+			}
+		}
 		rs.mu.Unlock()
 		for k := 0; k < need; k++ {
-			_, d, h, msg := runWorkerMsg(rs.chk.ID, rs.tier, sp.Name, cur, cur+1, "", caseTO)
+			_, d, h, msg := runWorkerMsg(rs.chk.ID, rs.tier, sp.Name, cur, cur+1, "", confirmTO)
 			if d || h {
 				confirmed++
 				lastMsg = msg
 			}
+		}
+		if hung && need > 0 && confirmed == need {
+			rs.mu.Lock()
+			rs.hangConfirmed = true
+			rs.mu.Unlock()
 		}
 		if need == 0 {
 			lastMsg = firstMsg
